@@ -2613,6 +2613,7 @@ func (db *DB) checkpointWithExecutor(ctx context.Context, mode string, exec *syn
 		// if it has been backfilled meanwhile, the write below restarts the
 		// WAL and overwrites it.
 		if !restartedBeforeCheckpoint {
+			verifTrace(db, "pt.ckpt.postcopy")
 			result, err = db.verifyAndSyncWithExecutor(ctx, true, exec, 0)
 			if err != nil {
 				return false, fmt.Errorf("cannot copy wal after checkpoint: %w", err)
